@@ -205,8 +205,10 @@ class JniFunction(JniBaseType):
     @cached_property
     def routine_name(self) -> str: return routine_name(self.decl.return_type_ref)
 
+    # the signature of the functional interface's `invoke` method; the type signature of the function type
+    # itself (as a parameter or field of another declaration) is the class descriptor inherited from JniBaseType
     @cached_property
-    def type_signature(self) -> str: return type_signature(self.decl.parameters, self.decl.return_type_ref)
+    def invoke_signature(self) -> str: return type_signature(self.decl.parameters, self.decl.return_type_ref)
 
     @cached_property
     def return_type_spec(self) -> str:
